@@ -68,6 +68,20 @@ def gen_scenario(rng):
         for t in turns:
             t["text"] = " ".join(rng.sample(labs, min(len(labs), 3))) + " " + t["text"]
     if rng.random() < 0.2:
+        # threaded class: parallel T1 over several graphs under scheduler slice budgets and small perf caches - everything
+        # the worker threads could share (budgets, caches, scratch state) is in play
+        from vlib.cfggen import gate_cfg, merge
+        world = gen_world(rng, ngraphs=(2, 3), neps=(0, 12))
+        cfg = merge(cfg, gate_cfg(rng, "parallel", True))
+        cfg = merge(cfg, {"scheduler": {"enabled": True, "policy": "round_robin", "quantum_ms": 10 ** 8,
+                                        "budgets": {"t1_pops": rng.choice([1, 2, 3, 5]), "t1_iters": rng.choice([None, 1, 2]), "t2_k": None, "t3_ops": None, "wall_ms": 10 ** 9}}})
+        cfg["t1"]["cache"] = {"enabled": rng.random() < 0.5}
+        turns = gen_turns(rng, world, n=(3, 5))
+        labs = sorted({n[1] for g in world["graphs"].values() for n in g["nodes"] if n[1]})
+        for t in turns:
+            t["text"] = " ".join(rng.sample(labs, min(len(labs), 4))) + " " + t["text"]
+        boot = False
+    if rng.random() < 0.2:
         # logical clock at / around the epoch (now_ms = 0 is a legal logical time): memories dated relative to it
         import datetime as _dt
         base = rng.choice([0, 0, 0, 1000])
